@@ -912,7 +912,17 @@ impl Check for ClientCheck {
                 // boundary grid: pre x final, exhaustive over the listed boundary values
                 let pres: Vec<u64> = vec![0, 1, 2, 2500, 99_999, 100_000, 999_999_999_998, 999_999_999_999];
                 let n = pres.len() as u64 * 9 * 3;
-                fams.push(Family::new("boundary_grid_pre_x_final_x_currency", n, true, move |i, _| {
+                // last emission point of a begin that runs on connection 1 (found by a dry run)
+                let after_begin: u16 = {
+                    let mut p = ClientPlan::plain(vec![OpSpec::Begin { token: "tok".into(), res: ResOutcome::success() }]);
+                    p.faults = vec![FaultSpec { conn: 0, point: 12, kind: FaultKind::CloseIdle }];
+                    let run = crate::client::run(&p);
+                    let log = run.log.lock().unwrap();
+                    (log.entries.iter().filter(|e| e.conn == 1 && matches!(e.ev, crate::conn::Ev::Release(_))).count() as u16).saturating_sub(1)
+                };
+                for later in [false, true] {
+                let pres = pres.clone();
+                fams.push(Family::new(if later { "boundary_grid_on_a_later_connection" } else { "boundary_grid_pre_x_final_x_currency" }, n, true, move |i, _| {
                     let pre = pres[(i / 27) as usize];
                     let fin = match (i / 3) % 9 {
                         0 => 0,
@@ -941,8 +951,17 @@ impl Check for ClientCheck {
                     p.cfg.currency = [752u16, 826, 978][(i % 3) as usize];
                     p.pt.receipt_start = [231u16, 9999, 1, 9998][((i / 3) % 4) as usize];
                     p.pt.status_currency = if i % 5 == 4 { Some(840) } else { None };
+                    if later {
+                        // the terminal closes the connection once Feig::new is through (or, every other run,
+                        // between begin and commit): the values travel over the second / third connection
+                        p.faults = vec![FaultSpec { conn: 0, point: 12, kind: FaultKind::CloseIdle }];
+                        if i % 2 == 1 {
+                            p.faults.push(FaultSpec { conn: 1, point: after_begin, kind: FaultKind::CloseIdle });
+                        }
+                    }
                     p
                 }));
+                }
                 let n = match tier {
                     Tier::Quick => 300_000,
                     Tier::Thorough => 6_000_000,
@@ -1174,6 +1193,15 @@ impl Check for ClientCheck {
                     let k = ((i / 256) % 4) as u8;
                     let ex = i / 1024;
                     abort_exchange_plan(ex, code, k, k / 2)
+                }));
+                // the same on a later connection: the terminal closed the first one once Feig::new was through
+                fams.push(Family::new("every_exchange_x_256_codes_on_a_later_connection", 9 * 256 * 2, true, |i, _| {
+                    let code = (i % 256) as u8;
+                    let k = ((i / 256) % 2) as u8;
+                    let ex = i / 512;
+                    let mut p = abort_exchange_plan(ex, code, k, 0);
+                    p.faults = vec![FaultSpec { conn: 0, point: 12, kind: FaultKind::CloseIdle }];
+                    p
                 }));
                 // the reversal of the dangling pre-authorisation inside the clean-up is aborted
                 fams.push(Family::new("dangling_reversal_aborted_x_256_codes", 256 * 2 * 4, true, |i, _| {
